@@ -154,7 +154,7 @@ def build_jobs(rng, per_codemod: int, variants_per_seed: int, only=None, include
         k = 0
         for s in chosen:
             shift_ok = s["tool"] is None and s["filename"] == "code.py"
-            vs = variants(s["code"], shift_ok)
+            vs = variants(s["code"], shift_ok, rng)
             ident = vs[0]
             rest = vs[1:]
             rng.shuffle(rest)
@@ -307,12 +307,66 @@ def second_use_variants(code: str):
             ("second_use_function", code_nl + f"\n\ndef _second_use_fn():\n    return ({tup})\n")]
 
 
+def expr_context_variants(code: str, rng=None, limit=6):
+    """Embed sub-expressions of the seed in other syntactic contexts: extra parentheses, operand of an arithmetic /
+    boolean / comparison operator, call argument, subscript, tuple right-hand side, conditional expression, await-less
+    lambda body...  Each variant replaces ONE expression node E (call, comparison, boolean operation, unary not, binary
+    operation, comprehension, attribute call) by a wrapper around its source text.  The result must still compile."""
+    import ast
+    import random as _random
+    rng = rng or _random.Random(0)
+    try:
+        tree = ast.parse(code)
+    except (SyntaxError, ValueError, RecursionError):
+        return []
+    lines = code.splitlines(keepends=True)
+    # ast columns are UTF-8 byte offsets
+    blines = [l.encode("utf-8") for l in lines]
+
+    def off(lineno, col):
+        return sum(len(b) for b in blines[:lineno - 1]) + col
+
+    data = code.encode("utf-8")
+    nodes = []
+    for n in ast.walk(tree):
+        if isinstance(n, (ast.Call, ast.Compare, ast.BoolOp, ast.UnaryOp, ast.BinOp, ast.ListComp, ast.IfExp)) and hasattr(n, "end_col_offset"):
+            nodes.append(n)
+    # statement-level: assignments whose value can become a tuple
+    assigns = [n for n in ast.walk(tree) if isinstance(n, ast.Assign) and len(n.targets) == 1 and isinstance(n.targets[0], ast.Name)]
+    rng.shuffle(nodes)
+    wrappers = [("parens", "({})"), ("arith_operand", "0 + ({})"), ("not_operand", "not ({})"), ("compare_operand", "({}) == 1"),
+                ("or_operand", "({}) or None"), ("call_arg", "print({})"), ("subscript", "[{}][0]"), ("ifexp", "({}) if True else None"),
+                ("tuple_elem", "({}, 2)[0]"), ("fstring", "f'{{{}!r}}'"), ("bare_arith", "1 + {}"), ("bare_not", "not {}"),
+                ("bare_compare", "{} == 1"), ("bare_or", "None or {}"), ("bare_and", "{} and 1")]
+    out = []
+    for n in nodes[:limit * 2]:
+        a, b = off(n.lineno, n.col_offset), off(n.end_lineno, n.end_col_offset)
+        seg = data[a:b].decode("utf-8")
+        if "\n" in seg and len(seg) > 400:
+            continue
+        name, w = rng.choice(wrappers)
+        new = (data[:a] + w.format(seg).encode("utf-8") + data[b:]).decode("utf-8")
+        if new != code and parses(new):
+            out.append((f"ctx_{name}", new))
+        if len(out) >= limit:
+            break
+    for n in assigns[:2]:
+        v = n.value
+        a, b = off(v.lineno, v.col_offset), off(v.end_lineno, v.end_col_offset)
+        seg = data[a:b].decode("utf-8")
+        new = (data[:a] + (seg + ", 2").encode("utf-8") + data[b:]).decode("utf-8")
+        if parses(new):
+            out.append(("ctx_tuple_rhs", new))
+    return out
+
+
 _variants_basic = variants
 
 
-def variants(code: str, shift_ok: bool):  # noqa: F811
+def variants(code: str, shift_ok: bool, rng=None):  # noqa: F811
     out = _variants_basic(code, shift_ok)
     if shift_ok:
+        out.extend(expr_context_variants(code if code.endswith("\n") else code + "\n", rng))
         out.extend(layout_variants(code if code.endswith("\n") else code + "\n"))
         out.extend(second_use_variants(code))
     return out
